@@ -224,6 +224,9 @@ func GenHostPattern(r *vh.Rand, pool []string) string {
 	if r.Chance(1, 12) {
 		h += "."
 	}
+	if r.Chance(1, 15) { // accepted by the loader although undocumented / called illegal
+		h = r.Pick("a.com:80", "*.com:80", "*.", ".a.com", "a..b", "*..com", "a.com.", "*.a.com.", "A.COM:8080", ".")
+	}
 	if r.Chance(1, 40) { // malformed stream
 		h = r.Pick("", "*a.com", "*.*.com", "a.*.com", "a*", "*.", ".", ".a.com", "a..b", "a.com:80", "*.a.com:80")
 	}
@@ -273,8 +276,11 @@ func GenPathPattern(r *vh.Rand, pool []string) string {
 	default:
 		p = base
 	}
+	if r.Chance(1, 15) { // accepted by the loader although route.md calls them illegal
+		p = r.Pick("a", "a*", "foo/b*", "/a//b", "//", "/a//*", "/fo*", "/a/fo*", "//*", "a/")
+	}
 	if r.Chance(1, 40) {
-		p = r.Pick("", "a", "a*", "/a*b", "/*/*", "**", "/a//b", "//", "/a//*")
+		p = r.Pick("", "/a*b", "/*/*", "**", "*/", "/*a")
 	}
 	return p
 }
@@ -407,8 +413,8 @@ func GenProbePath(r *vh.Rand, rs []Rule) string {
 			}
 		}
 	}
-	if r.Chance(1, 30) {
-		p = r.Pick("", "/", "//", "*", "a", "/a//b")
+	if r.Chance(1, 20) {
+		p = r.Pick("", "/", "//", "*", "a", "/a//b", "/foo", "/fo", "/fo/x", "foo/b/c", "a/", "/a//x", "//x")
 	}
 	return p
 }
